@@ -116,6 +116,13 @@ func (pr *prepared) stdEvent(e runlib.Event) bool {
 func checkC01(cfg *core.Config) int {
 	rep := core.NewReport(cfg)
 	progs := typeProgs(cfg.Seed, cfg.Pick(32, 400))
+	// shapes only the Go generators accept: structs whose names differ by case only
+	for i := 0; i < cfg.Pick(4, 40); i++ {
+		r := core.Rand(cfg.Seed, "typeprog-c01-case-twins", i)
+		opts := synth.RandomTypeOpts(r)
+		opts.CaseTwins = true
+		progs = append(progs, synth.NewTypeProg(cfg.Seed, 8000+i, r, opts))
+	}
 	progs = append(progs, sqlProgs(cfg.Seed, cfg.Pick(16, 200))...)
 	progs = append(progs, pinnedPrograms("C01")...)
 	pr := prepareRunner(cfg, rep, progs, []string{"gounions", "randdata", "sqlcrud", "sqlcrud-sets"}, []string{"c01"}, true)
